@@ -182,3 +182,30 @@ pub fn op_cas(
 pub fn now() -> Option<u64> {
     hooks().and_then(|h| (h.now)())
 }
+
+/// a heap object with hooked fields was allocated at `[p, p+size)`; `first/stride/count` describe an
+/// array of hooked per-slot atomics inside it (0 when there is none)
+pub fn alloc<T>(kind: &'static str, p: *mut T, first: usize, stride: usize, count: usize) -> *mut T {
+    if hooks().is_some() {
+        note(
+            "born",
+            &format!(
+                "{} {} {} {} {} {}",
+                kind,
+                p as usize,
+                std::mem::size_of::<T>(),
+                first,
+                stride,
+                count
+            ),
+        );
+    }
+    p
+}
+
+/// the heap object at `p` is being freed
+pub fn free<T>(kind: &'static str, p: *const T) {
+    if hooks().is_some() {
+        note("free", &format!("{} {}", kind, p as usize));
+    }
+}
